@@ -408,6 +408,26 @@ func (s *Search) feasible(cur st) []*ssa.BasicBlock {
 		return b.Succs
 	}
 	if cv, trueMeansNil, ok := NilCmp(ifi.Cond); ok {
+		// a result cell written and read back in this very block (`*err = phi(…); if *err != nil`): test what was stored
+		if ld, isLd := cv.(*ssa.UnOp); isLd && ld.Op == token.MUL && ld.Block() == b {
+			var last ssa.Value
+			for _, in := range b.Instrs {
+				if in == ssa.Instruction(ld) {
+					break
+				}
+				switch x := in.(type) {
+				case *ssa.Store:
+					if x.Addr == ld.X {
+						last = x.Val
+					}
+				case *ssa.Call, *ssa.Defer, *ssa.Go, *ssa.RunDefers:
+					last = nil // the cell may be written behind our back (captured cell)
+				}
+			}
+			if last != nil {
+				cv = last
+			}
+		}
 		switch s.P.ValState(cv, b, cur.pred) {
 		case IsNil:
 			if trueMeansNil {
